@@ -2,7 +2,7 @@
 import json
 
 from vlib import core
-from harness import c14_acct, c14_dense, c14_sched
+from harness import c14_acct, c14_dense, c14_options, c14_sched
 
 PROP = 'C14'
 MODEL_MODULES = ['TenpyModel.Util.J', 'TenpyModel.C14.Trotter', 'TenpyModel.C14.Accounting',
@@ -25,7 +25,17 @@ RULE = ('(a) schedule: every order the source dispatches on (regenerated) x N_st
         'non-zero and there are >=2 calls or the engine is time dependent; distinct by content hash. '
         '(c) dense: untruncated runs at dt, dt/2, dt/4 (total time split into two run() calls at a random point) vs '
         'scipy expm on the ExactDiag Hamiltonian; every TEBD order, one QR-TEBD order, imaginary time, TDVP, 4 (thorough: '
-        'all 12) W_I/W_II x compression x order combinations, two time-dependent engines.')
+        'all 16) W_I/W_II x {SVD, zip_up, variational, variationalQR} x order combinations, time-dependent TEBD / '
+        'ExpMPO / two-site / one-site TDVP. '
+        '(d) option branches (c14_options.py, ~55 cheap cases, L=4..6): TDVP combine / lanczos_params variants / Arnoldi / '
+        'deprecated alias / explicit_plus_hc vs the default run and expm; Krylov_params expansion; QR-TEBD cbe_expand(_0) / '
+        'cbe_min_block_increase / use_eig_based_svd / compute_err vs SVD-TEBD; E_offset; run_GS (TEBD/QR, finite/infinite, '
+        'orders) with wrapped update calls and the ExactDiag ground-state energy; RandomUnitaryEvolution with every '
+        'distribution function, a callable and dt != 1; restarts by resume_data / switch_engine / start_time vs the '
+        'uninterrupted run; preserve_norm x real/imaginary vs the dense norm; documented exception classes; '
+        'LanczosEvolution / ArnoldiEvolution directly vs scipy expm over their options. In (b) additionally: QR option '
+        'sets, E_offset, explicit preserve_norm, lanczos_params variants, explicit_plus_hc, infinite QR-TEBD, every '
+        'ExpMPO combination in turn.')
 TRUSTED = ['Lean 4.33 kernel; axioms of every C14_* theorem ⊆ {propext, Classical.choice, Quot.sound}',
            'tools/gen_C14.py (Python ast -> TenpyModel/Gen/C14Trotter.lean, regenerated on every run; unknown AST '
            'shapes are reported, never skipped); its output is additionally diffed against the real methods (part a)',
@@ -38,6 +48,14 @@ ASSUMPTIONS = ['numerical kernels (SVD, Lanczos, MPO application) are abstracted
                'relative (exactly when the errors are injected dyadic values)',
                'the convergence order (part c) is measured, not proved: test-level evidence',
                'unitarity of the gates / charge conservation are checked numerically (part c), not proved in Lean']
+
+ANCHOR_COVERAGE_NOTE = (
+    'measured 2026-09-26 with coverage 7 (--branch, quick tier seed 0, in-process via C14_NO_POOL=1) on the anchored files '
+    'tebd.py / tdvp.py / mpo_evolution.py / algorithm.py / krylov_based.py: before the coverage round 79 / 81 / 96 / 49 / '
+    '33 % (total 57 %), after 99 / 93 / 100 / 64 / 53 % (total 75 %; tdvp.py 98 % on the tree with the pending TDVP '
+    'repairs). Not executed on purpose: Algorithm.estimate_RAM (algorithm.py 240-338, not part of C14), GMRES / Arnoldi / '
+    'LanczosGroundState.run / lanczos_arpack / gram_schmidt in krylov_based.py (C16), unreachable defensive branches '
+    '(tebd.py 616, tdvp.py 261/343). See notes/C14.md "Coverage round".')
 
 _META = {}
 
@@ -81,9 +99,11 @@ def run(ctx):
         corpus = [c for c in _corpus() if c.get('part') == 'acct']
         res.merge(c14_acct.run(ctx, pool, corpus))
         res.merge(c14_dense.run(ctx, pool))
+        res.merge(c14_options.run(ctx, pool, [c for c in _corpus() if c.get('part') == 'opt']))
     finally:
         pool.terminate()
     res.extra['translator'] = {k: v for k, v in _meta().items() if k not in ('order_keys',)}
+    res.extra['anchor_coverage_note'] = ANCHOR_COVERAGE_NOTE
     return res
 
 
@@ -95,6 +115,7 @@ def search(ctx, reasons):
     try:
         res.merge(c14_acct.search(ctx, pool))
         res.merge(c14_dense.run(ctx, pool))
+        res.merge(c14_options.run(ctx, pool))
     finally:
         pool.terminate()
     return res
@@ -109,6 +130,8 @@ def replay(ctx, payload):
         res.merge(c14_acct.evaluate([case], use_model=True, do_shrink=False))
     elif part == 'dense':
         res.merge(c14_dense.evaluate([case]))
+    elif part == 'opt':
+        res.merge(c14_options.evaluate([case]))
     elif part == 'sched':
         sub = core.Ctx(PROP, ctx.tier, ctx.seed, ctx.budget_s)
         r = core.Result()
